@@ -164,6 +164,24 @@ impl Node {
         Node { shared, scope: Some(scope), dir: Some(dir.to_path_buf()) }
     }
 
+    /// opens the store of an on-disk node without starting the chain services (no start-up recovery),
+    /// lets `f` look at it, and closes it again
+    pub fn peek<R>(consensus: &Consensus, dir: &Path, f: impl FnOnce(&Shared) -> R) -> R {
+        std::fs::create_dir_all(dir.join("header_map")).unwrap();
+        let db_config = DBConfig { path: dir.join("db"), ..Default::default() };
+        static RT: std::sync::OnceLock<ckb_async_runtime::Handle> = std::sync::OnceLock::new();
+        let handle = RT.get_or_init(ckb_async_runtime::new_background_runtime).clone();
+        let (shared, pack) = SharedBuilder::new("hx", dir, &db_config, None, handle, consensus.clone())
+            .expect("open db")
+            .header_map_tmp_dir(Some(dir.join("header_map")))
+            .build()
+            .expect("build shared");
+        let r = f(&shared);
+        drop(pack);
+        drop(shared);
+        r
+    }
+
     pub fn chain(&self) -> &ChainController {
         self.scope.as_ref().unwrap().chain_controller()
     }
